@@ -1,6 +1,8 @@
 package main
 
 import (
+	"go/token"
+
 	"golang.org/x/tools/go/ssa"
 )
 
@@ -165,4 +167,52 @@ func exitsReachable(a ssa.Instruction) []*ssa.Return {
 // blockFactsHave reports whether cond==pol is known on entry to block b.
 func blockFactsHave(facts map[*ssa.BasicBlock]map[condFact]bool, b *ssa.BasicBlock, cond ssa.Value, pol bool) bool {
 	return facts[b][condFact{cond, pol}]
+}
+
+// reachEdgeSensitive computes the blocks reachable when control enters `start` from `pred`,
+// with one refinement (DESIGN §2.1 A-cfg): a block that branches on a Phi of boolean
+// constants defined in that same block chooses its successor by the incoming edge
+// (the `found := false ... found = true; break ... if found` idiom).
+func reachEdgeSensitive(start, pred *ssa.BasicBlock) map[*ssa.BasicBlock]bool {
+	type node struct{ b, from *ssa.BasicBlock }
+	seen := map[node]bool{}
+	out := map[*ssa.BasicBlock]bool{}
+	stack := []node{{start, pred}}
+	for len(stack) > 0 {
+		n := stack[len(stack)-1]
+		stack = stack[:len(stack)-1]
+		if seen[n] {
+			continue
+		}
+		seen[n] = true
+		out[n.b] = true
+		succs := n.b.Succs
+		if iff, ok := n.b.Instrs[len(n.b.Instrs)-1].(*ssa.If); ok && n.from != nil {
+			cond := iff.Cond
+			neg := false
+			for {
+				u, ok := cond.(*ssa.UnOp)
+				if !ok || u.Op != token.NOT {
+					break
+				}
+				cond, neg = u.X, !neg
+			}
+			if phi, vals, ok := phiBoolConsts(cond); ok && phi.Block() == n.b {
+				for k, p := range n.b.Preds {
+					if p == n.from {
+						v := vals[k] != neg
+						if v {
+							succs = []*ssa.BasicBlock{n.b.Succs[0]}
+						} else {
+							succs = []*ssa.BasicBlock{n.b.Succs[1]}
+						}
+					}
+				}
+			}
+		}
+		for _, s := range succs {
+			stack = append(stack, node{s, n.b})
+		}
+	}
+	return out
 }
